@@ -455,6 +455,12 @@ func (j *OpenIDConfiguration) UnmarshalJSON(bytes []byte) error {
 	}
 	keysAsJson, _ := json.Marshal(claims["jwks"])
 	j.JWKs = jwk.NewSet()
-
-	return json.Unmarshal(keysAsJson, &j.JWKs)
+	if err := json.Unmarshal(keysAsJson, &j.JWKs); err != nil {
+		return err
+	}
+	if j.JWKs == nil {
+		// "jwks" missing or null: unmarshalling null into the interface leaves it nil, callers expect a (possibly empty) set
+		j.JWKs = jwk.NewSet()
+	}
+	return nil
 }
